@@ -50,7 +50,7 @@ def _event(args):
     text = rows.gen_text_formula(rng, groups=True, rich=True)
     if rng.random() < 0.2:
         text = rng.choice(["f", "o", "C(k)"]) + " ~" + text.split("~", 1)[1]
-    ns = {"KL": sorted(set(w.cols["k"]["v"]))}
+    ns = rows.namespace(w, rng)
     s1, d1 = design.build(text, w.df, extra_namespace=ns)
     df2, perm, ops = transform_frame(rng, w.df, w.n)
     s2, d2 = design.build(text, df2, extra_namespace=ns)
